@@ -283,6 +283,25 @@ pub fn b_decay_linear<S: Src>(s: &mut S) -> Result<(), String> {
 }
 harness!(c26_decay_linear, b_decay_linear, 2);
 
+/// symmetric int8 quantisation, dimension 1: a non-zero finite component is the extreme of its own vector and
+/// must map to +/-127 (the documented "[-max_abs, max_abs] -> [-127, 127]"); zero maps to zero
+pub fn b_quant_sym1<S: Src>(s: &mut S) -> Result<(), String> {
+    let x = s.f32();
+    s.assume(x.is_finite());
+    let q = inputlayer::vector_ops::quantize_vector_symmetric(&[x]);
+    cover!(x > 0.0 && x < 1e-6, "tiny positive component");
+    check!(q.len() == 1, "length preserved");
+    if x == 0.0 {
+        check!(q[0] == 0, "zero preserved");
+    } else if x > 0.0 {
+        check!(q[0] == 127, "positive extreme maps to 127");
+    } else {
+        check!(q[0] == -127, "negative extreme maps to -127");
+    }
+    Ok(())
+}
+harness!(c26_quant_sym1, b_quant_sym1, 3);
+
 pub fn register(v: &mut Vec<(&'static str, NativeBody)>) {
     v.push(("c26_hamming", b_hamming::<NativeSrc>));
     v.push(("c26_probes_h0_p3", b_probes_h0_p3::<NativeSrc>));
@@ -304,4 +323,5 @@ pub fn register(v: &mut Vec<(&'static str, NativeBody)>) {
     v.push(("c26_within_last", b_within_last::<NativeSrc>));
     v.push(("c26_intervals", b_intervals::<NativeSrc>));
     v.push(("c26_decay_linear", b_decay_linear::<NativeSrc>));
+    v.push(("c26_quant_sym1", b_quant_sym1::<NativeSrc>));
 }
